@@ -427,6 +427,22 @@ def _stub_spec(rng):
     return {"nodes": nodes, "opts": o}
 
 
+def _origin_spec(rng):
+    """bounds that are zero or negative (Python falsy values included) with
+    labels on the negative side and around the origin"""
+    n = rng.randint(1, 14)
+    lo = rng.choice([None, -300, -1000.5, -64, -2048])
+    hi = rng.choice([0, 0, 0.0, -10, -0.5, 12, None])
+    if lo is not None and hi is not None and hi <= lo:
+        hi = 0
+    nodes = []
+    for _ in range(n):
+        c = rng.choice([0, 0, -5, -40, -120, 3])
+        nodes.append([c + rng.randrange(-160, 40) / 8.0, rng.choice([1, 10, 20.5, 50, 7.25])])
+    return {"nodes": nodes, "opts": {"minPos": lo, "maxPos": hi, "algorithm": rng.choice(ALGS + ["none"]),
+                                     "nodeSpacing": rng.choice([3, 0, 2.5]), "density": rng.choice([0.85, 1, 0.5])}}
+
+
 def gen_specs(rng, tier):
     """yields (kind, py-input) pairs"""
     big = tier != "quick"
@@ -453,6 +469,8 @@ def gen_specs(rng, tier):
         yield "threshold", _threshold_spec(rng)
     for _ in range(8000 if big else 500):
         yield "stubs", _stub_spec(rng)
+    for _ in range(3000 if big else 250):
+        yield "origin", _origin_spec(rng)
     # single items, and a lone item against each wall
     for p, w, o in [(5, 10, {}), (-50, 10, {}), (5, 10, {"maxPos": 8}), (100, 10, {"maxPos": 50}),
                     (2.5, 1, {"minPos": None}), (0.5, 1, {"minPos": None}), (1.5, 1, {"minPos": None}),
